@@ -230,13 +230,63 @@ BatchStep ==
                         /\ ckpt' = Empty
                         /\ UNCHANGED <<gvars, running, rstat, attempts, calls>>
 
+
+\* ------------------------------------------------------------------ eager execution (Workflow): wait for ONE finished task per iteration
+\* Submitted bodies start at once (exec observed at submission); which running task is collected next is the scheduler's choice,
+\* so TLC explores every completion order -- the engine-level confluence half of C03.
+ExecEvs(order, inp) == [k \in 1..Len(order) |-> [ev |-> "exec", p |-> "", n |-> order[k], i |-> inp[order[k]]]]
+DoneEv(n) == [ev |-> "done", p |-> "", n |-> n]
+ErrEv(class, path, isv, asv, asn) == [ev |-> "error", class |-> class, path |-> path, is |-> isv, as |-> asv, asnode |-> asn, sets |-> <<>>]
+EagerStep ==
+  /\ rstat = "run" /\ Eager
+  /\ LET submitEvs == ExecEvs(NodeSeq(DOMAIN next), next)
+         run2 == next @@ running                         \* tm.submit(nextTasks)
+     IN IF DOMAIN run2 = {}
+        THEN Finished(<<ErrEv("stuck", <<>>, FALSE, FALSE, "")>>, "error")
+        ELSE \E t \in DOMAIN run2 :                        \* tm.wait(): any one of the running tasks finishes first
+          IF FailOf(t) # "none"
+          THEN /\ rs' = FoldApply(rs, submitEvs \o <<ErrEv(IF FailOf(t) = "err" THEN "node" ELSE "panic", <<t>>, FailOf(t) = "err", FailOf(t) = "err", IF FailOf(t) = "err" THEN t ELSE "")>>)
+               /\ rstat' = "error" /\ UNCHANGED <<gvars, ch, next, running, step, ckpt, st, attempts, calls>>
+          ELSE
+          LET r == Calc(ch, (t :> Out(t, run2[t])), <<t>>)
+              evs1 == submitEvs \o <<DoneEv(t)>> \o r.evs
+              rest == [n \in (DOMAIN run2) \ {t} |-> run2[n]]
+              nx == [n \in r.ready |-> r.inputs[n]]
+              bh == r.ready \cap deco.before
+              aft == {t} \cap deco.after
+          IN IF END \in r.ready
+             THEN /\ rs' = FoldApply(rs, evs1 \o <<ResultEv(r.inputs[END])>>) /\ rstat' = "done"
+                  /\ UNCHANGED <<gvars, ch, next, running, step, ckpt, st, attempts, calls>>
+             ELSE IF bh = {} /\ aft = {}
+             THEN /\ rs' = FoldApply(rs, evs1) /\ ch' = r.C /\ next' = nx /\ running' = rest
+                  /\ UNCHANGED <<gvars, step, rstat, ckpt, st, attempts, calls>>
+             ELSE \* interrupt: tm.waitAll() for the others (none of them fails in this model), one more calculateNextTasks, then save
+                  LET others == NodeSeq({n \in DOMAIN rest : FailOf(n) = "none"})
+                      outs2 == [n \in DOMAIN rest |-> Out(n, rest[n])]
+                      r2 == Calc(r.C, outs2, others)
+                      evs2 == evs1 \o [k \in 1..Len(others) |-> DoneEv(others[k])] \o r2.evs
+                      nx2 == [n \in r2.ready |-> r2.inputs[n]] @@ nx
+                      aft2 == aft \cup ((DOMAIN rest) \cap deco.after)
+                      bh2 == (DOMAIN nx2) \cap deco.before
+                  IN IF \E n \in DOMAIN rest : FailOf(n) # "none"
+                     THEN LET n == CHOOSE x \in DOMAIN rest : FailOf(x) # "none" IN
+                          /\ rs' = FoldApply(rs, evs1 \o <<ErrEv(IF FailOf(n) = "err" THEN "node" ELSE "panic", <<n>>, FailOf(n) = "err", FailOf(n) = "err", IF FailOf(n) = "err" THEN n ELSE "")>>)
+                          /\ rstat' = "error" /\ UNCHANGED <<gvars, ch, next, running, step, ckpt, st, attempts, calls>>
+                     ELSE IF END \in r2.ready
+                     THEN /\ rs' = FoldApply(rs, evs2 \o <<ResultEv(r2.inputs[END])>>) /\ rstat' = "done"
+                          /\ UNCHANGED <<gvars, ch, next, running, step, ckpt, st, attempts, calls>>
+                     ELSE /\ ckpt' = [ch |-> r2.C, inputs |-> nx2, st |-> st]
+                          /\ rs' = FoldApply(rs, evs2 \o <<IntrEv(bh2, aft2, {}, st.trail, st.cnt)>>)
+                          /\ rstat' = "interrupted" /\ ch' = r2.C /\ next' = Empty /\ running' = Empty
+                          /\ UNCHANGED <<gvars, step, st, attempts, calls>>
+
 Resume == /\ rstat = "interrupted" /\ calls < MaxCalls
           /\ rs' = R!Apply(rs, [ev |-> "resume", call |-> "invoke", mod |-> 0])
           /\ ch' = ckpt.ch /\ next' = ckpt.inputs /\ st' = ckpt.st /\ step' = 0 /\ rstat' = "run"
           /\ ckpt' = IF "rr" \in DOMAIN ckpt THEN [rr |-> ckpt.rr] ELSE Empty
-          /\ calls' = calls + 1 /\ UNCHANGED <<gvars, running, attempts>>
+          /\ running' = Empty /\ calls' = calls + 1 /\ UNCHANGED <<gvars, attempts>>
 
-RunNext == Begin \/ Start \/ BatchStep \/ Resume
+RunNext == Begin \/ Start \/ BatchStep \/ EagerStep \/ Resume
 Next == (GenNext /\ UNCHANGED rvars) \/ RunNext
 Spec == Init /\ [][Next]_vars
 
